@@ -118,7 +118,7 @@ H("C06", "css/parser", "VxH_C06_compose_rules", reach=["rules"], bounds="prelude
 H("C06", "css/parser", "VxH_C06_important", reach=["declaration"], bounds="value of 0..2 tokens followed by ! [ws] important|IMPORTANT|ImPortant|importan [ws]")
 H("C06", "css/parser", "VxH_C06_identstart", reach=["decided"], bounds="valid UTF-8 preprocessed text of 1..3 bytes (thorough 4)")
 H("C06", "css/parser", "VxH_C06_number", reach=["number", "not-a-number"], bounds="valid UTF-8 preprocessed text of 1..3 bytes (thorough 4)", quick={"shards": 4, "sharddepth": 6}, thorough={"shards": 12, "sharddepth": 8, "time": "2400s", "maxpaths": 8000000})
-H("C06", "css/parser", "VxH_C06_escape", reach=["escape", "not-an-escape"], bounds="backslash followed by 0..2 bytes (thorough 5) of valid UTF-8 preprocessed text", quick={"shards": 8, "sharddepth": 6}, thorough={"shards": 12, "sharddepth": 8, "time": "2400s", "maxpaths": 8000000})
+H("C06", "css/parser", "VxH_C06_escape", reach=["escape", "not-an-escape"], bounds="backslash followed by 0..2 bytes (thorough 4) of valid UTF-8 preprocessed text", quick={"shards": 8, "sharddepth": 6}, thorough={"shards": 12, "sharddepth": 8, "time": "2400s", "maxpaths": 8000000})
 H("C06", "css/parser", "VxH_C06_badurl", reach=["tokenized"], bounds="'url(a b' followed by 0..4 bytes (thorough 5) of valid UTF-8 preprocessed text", quick={"shards": 4}, thorough={"shards": 12, "time": "2400s", "maxpaths": 8000000})
 H("C07", "svg", "VxH_C07_svg_attrs", reach=["parseValue", "parseViewbox", "parsePreserveAspectRatio", "parsePoints"], bounds="9 SVG attribute parsers on every byte string of length 0..3 (thorough 4)", thorough={"shards": 8, "time": "2400s", "maxpaths": 4000000})
 H("C07", "svg", "VxH_C07_svg_transform", reach=["parsed-with-name"], bounds="parseTransform on every byte string of length 0..3 (thorough 4), alone and after 5 function names", thorough={"shards": 8, "time": "2400s", "maxpaths": 4000000})
